@@ -477,5 +477,34 @@ def r16_8(ctx):
     return r
 
 
+def r16_9(ctx):
+    """'with the same attributes': what the encoder puts on the wire for a text attribute (USERNAME, REALM, NONCE,
+    SOFTWARE) is the value it was given - all of it. The shared helper append_string_attr hands the bytes of its `value`
+    parameter, unsliced, to append_raw_attribute, which writes their length and then exactly those bytes. A
+    'hardening' cut (USERNAME is `rufrag:lufrag`, up to 513 bytes; REALM / NONCE up to 763 bytes) changes the value
+    silently: MESSAGE-INTEGRITY still verifies, the peer sees a different USERNAME / NONCE."""
+    r = RuleResult("R16.9", "K6/provenance", "text attributes are written whole: value bytes and length come from the unmodified parameter")
+    sa = ctx.body("transports::ice::stun::append_string_attr")
+    ra = ctx.body("transports::ice::stun::append_raw_attribute")
+    r.scope += [sa.name, ra.name]
+    calls = [(bi, t) for bi, t, p in sa.calls() if p and p.endswith("stun::append_raw_attribute")]
+    r.need("append_raw_attribute call in append_string_attr", len(calls), 1)
+    for bi, t in calls:
+        v = sa.term_operand(t["a"][2])
+        whole = v == ("call", "core::str::<impl str>::as_bytes", (("arg", "value"),)) or \
+            (v[0] == "call" and v[1].endswith("::as_bytes") and v[2] == (("arg", "value"),))
+        if whole:
+            r.ok({"site": sa.where(bi), "bytes": "value.as_bytes()"})
+        else:
+            r.violate(sa.name, "text:cut", sa.where(bi), "the text attribute is written from %s, not from the whole value: it is truncated or altered on the way to the wire" % mir.show(v, 90))
+    exts = [(bi, sa_) for bi, sa_, p in ra.calls() if p and p.endswith("::extend_from_slice")]
+    vals = [ra.term_operand(t["a"][1]) for bi, t in exts]
+    if any(v == ("arg", "value") for v in vals) and any(mir.has(v, lambda x: x[0] == "call" and x[1].endswith("::len") and x[2] == (("arg", "value"),)) for v in vals):
+        r.ok({"append_raw_attribute": "writes len(value) and then value"})
+    else:
+        r.violate(ra.name, "raw:cut", ra.where(0), "append_raw_attribute does not write the length of `value` followed by `value` itself")
+    return r
+
+
 def run(ctx):
-    return [r16_1(ctx), r16_2(ctx), r16_3(ctx), r16_4(ctx), r16_5(ctx), r16_6(ctx), r16_7(ctx), r16_8(ctx)]
+    return [r16_1(ctx), r16_2(ctx), r16_3(ctx), r16_4(ctx), r16_5(ctx), r16_6(ctx), r16_7(ctx), r16_8(ctx), r16_9(ctx)]
